@@ -6,6 +6,9 @@ from hypothesis import strategies as st
 
 
 def fl(lo, hi, **kw):
+    # no subnormals: quantities built from them (variances, amplitudes) underflow and lose all precision, which has
+    # produced three oracle false alarms (C03, C01, C16)
+    kw.setdefault("allow_subnormal", False)
     return st.floats(min_value=lo, max_value=hi, allow_nan=False, allow_infinity=False, **kw)
 
 
